@@ -180,3 +180,33 @@ package bttest
 //@   requires c != nil
 //@   ensures result0 != nil
 //@   ensures result1 == nil ==> (result0 == c || fresh(result0))
+
+// ---------------------------------------------------------------------------------------------
+// Cell lists
+// ---------------------------------------------------------------------------------------------
+
+//@ spec distinctTS(cs []*btpb.Cell) bool = forall a, b :: 0 <= a < len(cs) && 0 <= b < len(cs) && a != b ==> cs[a].TimestampMicros != cs[b].TimestampMicros
+
+//@ func appendOrReplaceCell
+//@   property C01 C13
+//@   requires cellsOK(cs) && newCell != nil
+//@   requires descTS(cs)
+//@   modifies elems(cs)
+//@   ensures cellsOK(result)
+//@   ensures descTS(result)
+//@   ensures len(result) == len(cs) || len(result) == len(cs) + 1
+//@   ensures exists k :: 0 <= k < len(result) && result[k] == newCell
+//@   ensures obj(result) == obj(cs) || fresh(result)
+//@   loop 1 invariant forall k :: 0 <= k <= idx1 ==> cs[k].TimestampMicros != newCell.TimestampMicros
+//@   loop 1 invariant frameOld(elems(cs))
+
+//@ func applyGC
+//@   property C16
+//@   requires cellsOK(cells) && descTS(cells)
+//@   requires rule != nil
+//@   ensures obj(result) == obj(cells) && len(result) <= len(cells)
+//@   ensures forall k :: 0 <= k < len(result) ==> result[k] == cells[k]
+//@   ensures typeis(rule.Rule, *btapb.GcRule_MaxNumVersions) && as(rule.Rule, *btapb.GcRule_MaxNumVersions).MaxNumVersions >= 0 ==> len(result) == min(len(cells), as(rule.Rule, *btapb.GcRule_MaxNumVersions).MaxNumVersions)
+//@   ensures typeis(rule.Rule, *btapb.GcRule_MaxAge) ==> forall k :: 0 <= k < len(cells) ==> ((k < len(result)) <==> (cells[k].TimestampMicros >= now - as(rule.Rule, *btapb.GcRule_MaxAge).MaxAge.Seconds * 1000000 - as(rule.Rule, *btapb.GcRule_MaxAge).MaxAge.Nanos / 1000))
+//@   loop 1 invariant obj(cells) == old(obj(cells)) && len(cells) <= old(len(cells))
+//@   loop 1 invariant forall k :: 0 <= k < len(cells) ==> cells[k] == old(cells[k])
